@@ -168,9 +168,9 @@ def card(ex, d):
     return memo[k][1]
 
 
-def _genexp_fold(ex, g, on_concrete, on_symbolic):
+def _genexp_fold(ex, g, on_concrete, on_symbolic, until=None):
     if isinstance(g, GenV):
-        r = ex.comprehend(g.node, g.env)
+        r = ex.comprehend(g.node, g.env, until)
         if r is not None:
             return on_concrete(r)
         kb, dom, env2 = ex.bound_gen(g.node, g.env)
@@ -185,7 +185,8 @@ def b_all(ex, g):
             if not ex.truth(x):
                 return False
         return True
-    return _genexp_fold(ex, g, conc, lambda kb, dom, body, g_: z3.ForAll([kb], z3.Implies(dom, ex.zbool(body))))
+    # a generator argument is consumed lazily: all() stops at the first false element (later elements are not evaluated)
+    return _genexp_fold(ex, g, conc, lambda kb, dom, body, g_: z3.ForAll([kb], z3.Implies(dom, ex.zbool(body))), until=lambda v: not ex.truth(v))
 
 
 def b_any(ex, g):
@@ -194,7 +195,7 @@ def b_any(ex, g):
             if ex.truth(x):
                 return True
         return False
-    return _genexp_fold(ex, g, conc, lambda kb, dom, body, g_: z3.Exists([kb], z3.And(dom, ex.zbool(body))))
+    return _genexp_fold(ex, g, conc, lambda kb, dom, body, g_: z3.Exists([kb], z3.And(dom, ex.zbool(body))), until=lambda v: ex.truth(v))
 
 
 def b_sum(ex, g, start=0):
@@ -220,11 +221,18 @@ def b_sum(ex, g, start=0):
     return _genexp_fold(ex, g, conc, sym)
 
 
-def b_min(ex, *args, key=None, default=None):
+_NODEFAULT = object()
+
+
+def b_min(ex, *args, key=None, default=_NODEFAULT):
+    if default is not _NODEFAULT and len(args) == 1 and not ex.iterate(args[0]):
+        return default
     return _minmax(ex, args, key, True)
 
 
-def b_max(ex, *args, key=None, default=None):
+def b_max(ex, *args, key=None, default=_NODEFAULT):
+    if default is not _NODEFAULT and len(args) == 1 and not ex.iterate(args[0]):
+        return default
     return _minmax(ex, args, key, False)
 
 
